@@ -8,6 +8,7 @@ use std::borrow::Borrow;
 use std::hash::Hash;
 use core::str::Chars;
 verus! {
+//@include specs/std_extra.rs
 //@include specs/err.rs
 //@include specs/tok.rs
 
